@@ -21,8 +21,8 @@
 static int thorough;
 static int is_tsan;
 
-enum { B_FULL = 0, B_RESUME_A, B_RESUME_B, B_RESUME_A2, B_ROTATE, B_RESUME_A_NOEMS, B_RESUME_UNKNOWN, B_NBODY };
-static const char *bname[] = { "full", "resume(A)", "resume(B)", "resume(A,2nd client)", "rotate-ticket-keys", "resume(A, extended master secret off)", "resume(unknown id)" };
+enum { B_FULL = 0, B_RESUME_A, B_RESUME_B, B_RESUME_A2, B_ROTATE, B_RESUME_A_NOEMS, B_RESUME_UNKNOWN, B_FULL_P384, B_NBODY };
+static const char *bname[] = { "full", "resume(A)", "resume(B)", "resume(A,2nd client)", "rotate-ticket-keys", "resume(A, extended master secret off)", "resume(unknown id)", "full(client enables only secp384r1)" };
 
 typedef struct { const char *name; int ver, kx; uint16_t suite; int tickets; int prefill; int nthreads; int body[SR_MAXT]; int maxbound_tsan, maxbound; } scen_t;
 static const scen_t scens[] = {
@@ -33,6 +33,9 @@ static const scen_t scens[] = {
     { "tls13-psk-resume-vs-rotate", V_TLS13, KX_13_RSA, 0, 1, 0, 2, { B_RESUME_A, B_ROTATE }, 1, 2 },
     { "ecdhe-ephemeral-cache-x2", V_TLS12, KX_ECDHE_RSA, TLS_ECDHE_RSA_WITH_AES_128_GCM_SHA256, 0, 0, 2, { B_FULL, B_FULL }, 1, 2 },
     /* the refusal paths of the cache lookup (every early return of the lookup holds / must release the table lock) */
+    /* the ephemeral ECDHE key cache is filled (secp256r1) by the prelude: one thread hits it while another, whose client
+       only enables secp384r1, forces its regeneration */
+    { "ecdhe-cache-hit-vs-regeneration-for-another-curve", V_TLS12, KX_ECDHE_RSA, TLS_ECDHE_RSA_WITH_AES_128_GCM_SHA256, 0, 0, 2, { B_FULL, B_FULL_P384 }, 1, 2 },
     { "id-resume-refused-ems-mismatch-vs-full", V_TLS12, KX_PSK, 0, 0, 0, 2, { B_RESUME_A_NOEMS, B_FULL }, 1, 2 },
     { "id-resume-refused-unknown-id-vs-resume", V_TLS12, KX_PSK, 0, 0, 0, 2, { B_RESUME_UNKNOWN, B_RESUME_A }, 1, 2 },
 };
@@ -57,6 +60,10 @@ static void body_connect(int id, sslSessionId_t *sid)
     if (CUR->body[id] == B_RESUME_A_NOEMS)
     {
         w.cfg.ems_off = 1;
+    }
+    if (CUR->body[id] == B_FULL_P384)
+    {
+        w.cfg.ec384 = 1;
     }
     w.s[1].is_server = 1;
     w.s[0].keys = base.s[0].keys;
@@ -106,6 +113,7 @@ static void *thread_main(void *arg)
     switch (CUR->body[id])
     {
     case B_FULL:
+    case B_FULL_P384:
         matrixSslNewSessionId(&own, NULL);
         body_connect(id, own);
         matrixSslDeleteSessionId(own);
@@ -566,6 +574,12 @@ int main(int argc, char **argv)
         {
             p.c[p.n++] = (unsigned char) (*q++ - '0');
         }
+        /* the admissible outcome vectors (all executions without preemption) are recomputed for the replay */
+        mx_init(&cfg);
+        signal(SIGPIPE, SIG_IGN);
+        nseq = 0;
+        explore(si, 0, 1);
+        fflush(NULL);
         pid = fork();
         if (pid == 0)
         {
@@ -591,6 +605,11 @@ int main(int argc, char **argv)
         {
             r.violation = 1;
             snprintf(r.key, sizeof(r.key), "%s|deadlock", scens[si].name);
+        }
+        else if (tr->done && npre > 0 && !in_seq(tr->outcome))
+        {
+            r.violation = 1;
+            snprintf(r.key, sizeof(r.key), "%s|outcome-not-serializable", scens[si].name);
         }
         r.trace_hash = fnv1a(tr->pt, sizeof(sr_point_t) * (size_t) tr->npoints, FNV0);
         if (is_tsan && !r.violation)
